@@ -117,6 +117,69 @@ def check_targets_bare():
         shutil.rmtree(d, ignore_errors=True)
 
 
+FILES = {
+    "plain.py": "from district42 import schema\nname = 'caf\u00e9'\n".encode("utf-8"),
+    "crlf.py": "from district42 import schema\r\nname = 'caf\u00e9'\r\n".encode("utf-8"),
+    "bom.py": b"\xef\xbb\xbf" + "from valera import validate\nx = '\u4e2d'\n".encode("utf-8"),
+    "latin1.py": "# -*- coding: latin-1 -*-\nfrom district42 import schema\nname = 'Caf\u00e9'\n".encode("latin-1"),
+    "cp1251.py": "# coding: cp1251\nfrom valera import validate, eq\nword = '\u043f\u0440\u0438\u0432\u0435\u0442'\n".encode("cp1251"),
+    "utf8cookie.py": "# coding: utf-8\nfrom district42 import optional\nname = '\u00e9'\n".encode("utf-8"),
+    "nothing.py": "import os\nx = 1\n".encode("utf-8"),
+    "sub/deep.py": "from revolt import substitute\ny = 2\n".encode("utf-8"),
+    ".hidden/skip.py": "from district42 import schema\n".encode("utf-8"),
+    "__pycache__/skip.py": "from district42 import schema\n".encode("utf-8"),
+    "notes.txt": "from district42 import schema\n".encode("utf-8"),
+}
+
+
+def file_level_pass(acc):
+    """migrate_v1_to_v2(directory) over files in several encodings: every file parses afterwards,
+    its statements other than imports are what they were (the bytes are parsed as Python parses
+    source files: BOM and coding cookie honoured), skipped places are untouched."""
+    import contextlib
+    import io
+    import os
+    import shutil
+    import tempfile
+    from d42.migration.migrate_v1_to_v2 import migrate_v1_to_v2
+
+    def others(data):
+        return [ast.dump(n) for n in ast.parse(data).body if not isinstance(n, (ast.ImportFrom, ast.Import))]
+
+    d = tempfile.mkdtemp(prefix="c19files.")
+    try:
+        for rel, data in FILES.items():
+            path = os.path.join(d, rel)
+            os.makedirs(os.path.dirname(path), exist_ok=True)
+            with open(path, "wb") as f:
+                f.write(data)
+        with contextlib.redirect_stdout(io.StringIO()):
+            migrate_v1_to_v2(d)
+        for rel, before in FILES.items():
+            acc.count("files_migrated")
+            with open(os.path.join(d, rel), "rb") as f:
+                after = f.read()
+            skipped = rel.startswith((".hidden", "__pycache__")) or not rel.endswith(".py")
+            kind = None
+            if skipped or rel == "nothing.py":
+                if after != before:
+                    kind = "file-that-must-be-left-alone-was-changed"
+            else:
+                try:
+                    if others(after) != others(before):
+                        kind = "statements-other-than-imports-changed"
+                except (SyntaxError, ValueError, UnicodeDecodeError) as e:
+                    kind = f"file-no-longer-parses:{type(e).__name__}"
+                if kind is None and rel in ("plain.py", "crlf.py", "sub/deep.py", "utf8cookie.py") \
+                        and b"from d42" not in after:
+                    kind = "utf-8-file-with-a-mapped-import-was-not-rewritten"
+            if kind:
+                acc.violation(f"C19|files|{kind}|{rel}", {"file_level": True, "file": rel,
+                                                          "before": repr(before)[:200], "after": repr(after)[:200]})
+    finally:
+        shutil.rmtree(d, ignore_errors=True)
+
+
 def expected_bindings(node):
     """Multiset (sorted list) of (module, name, local name) the replacement must bind."""
     out = []
@@ -278,6 +341,7 @@ def worker(shard, nshards, tier, seed, mode="shard"):
         acc.count("mapping_targets", n)
         for b in bad:
             acc.violation(f"C19|mapping-target-not-importable|{b[2]}.{b[3]}", {"target": list(b)})
+        file_level_pass(acc)
         nb, badb = check_targets_bare()
         acc.count("mapping_targets_in_a_bare_interpreter", nb)
         for b in badb or []:
@@ -355,6 +419,10 @@ def replay(case):
         k = judge(case["source"])
         shared = "shared-line" if case.get("joiner") == ";" else "own-lines"
         return f"C19|{k}|{shared}" if k else None
+    if case.get("file_level"):
+        acc = Acc()
+        file_level_pass(acc)
+        return list(acc.viol)
     if case.get("bare"):
         return True if check_targets_bare()[1] else None
     n, bad = check_targets()
